@@ -7,6 +7,7 @@ package checks
 
 import (
 	"errors"
+	"fmt"
 	"sync"
 
 	cbor "github.com/fxamacker/cbor/v2"
@@ -31,6 +32,19 @@ func init() {
 	if err != nil {
 		panic(err)
 	}
+}
+
+// timestamps the extension profiles reject with errors that WRAP the
+// "ignorable" sentinels: a gate that filters the result of Validate() would
+// let them through
+const (
+	extTSNotInProfile int64 = 13
+	extTSOptionalish  int64 = 17
+)
+
+// extRuleBroken: does the extension's own rule reject this timestamp?
+func extRuleBroken(ts *int64) bool {
+	return ts != nil && (*ts < 0 || *ts == extTSNotInProfile || *ts == extTSOptionalish)
 }
 
 const (
@@ -58,6 +72,17 @@ func (o *ExtP2Claims) GetTimestamp() (int64, error) {
 func (o *ExtP2Claims) Validate() error {
 	if err := psatoken.ValidateClaims(o); err != nil {
 		return err
+	}
+	// the extension's own rules: negative timestamps are malformed; two
+	// values are reserved and reported through the profile-related sentinels
+	// (a derived profile is free to use them for claims IT does not allow)
+	if o.Timestamp != nil {
+		switch *o.Timestamp {
+		case extTSNotInProfile:
+			return fmt.Errorf("timestamp %d: %w", *o.Timestamp, psatoken.ErrClaimNotInProfile)
+		case extTSOptionalish:
+			return fmt.Errorf("timestamp %d is reserved (%w is not an excuse)", *o.Timestamp, psatoken.ErrMissingOptional)
+		}
 	}
 	return psatoken.FilterError(o.GetTimestamp())
 }
@@ -110,6 +135,17 @@ func (o *ExtP1Claims) GetTimestamp() (int64, error) {
 func (o *ExtP1Claims) Validate() error {
 	if err := psatoken.ValidateClaims(o); err != nil {
 		return err
+	}
+	// the extension's own rules: negative timestamps are malformed; two
+	// values are reserved and reported through the profile-related sentinels
+	// (a derived profile is free to use them for claims IT does not allow)
+	if o.Timestamp != nil {
+		switch *o.Timestamp {
+		case extTSNotInProfile:
+			return fmt.Errorf("timestamp %d: %w", *o.Timestamp, psatoken.ErrClaimNotInProfile)
+		case extTSOptionalish:
+			return fmt.Errorf("timestamp %d is reserved (%w is not an excuse)", *o.Timestamp, psatoken.ErrMissingOptional)
+		}
 	}
 	return psatoken.FilterError(o.GetTimestamp())
 }
